@@ -32,6 +32,7 @@ def tags():
 
 
 def real_try_parse(x):
+    """None: not XML; False: well-formed but not a valid message; else the message"""
     from indi.message import IndiMessage
 
     try:
@@ -41,15 +42,13 @@ def real_try_parse(x):
     try:
         return IndiMessage.from_string(x)
     except Exception:  # noqa
-        return None
+        return False
 
 
 def build_table(stream, ids):
-    """every substring '<'...'>' of the stream the real parser accepts -> message id"""
+    """every substring '<'...'>' of the stream that is a complete XML document -> message id (0: not a valid message)"""
     table = {}
-    # only a string that spells out a registered root tag (possibly after a declaration) can parse
-    openers = tuple("<" + t for t in tags()) + ("<?xml",)
-    lts = [i for i, c in enumerate(stream) if c == "<" and stream.startswith(openers, i)]
+    lts = [i for i, c in enumerate(stream) if c == "<"]
     gts = [j + 1 for j, c in enumerate(stream) if c == ">"]
     for i in lts:
         for j in gts:
@@ -58,7 +57,9 @@ def build_table(stream, ids):
                 if x in table:
                     continue
                 m = real_try_parse(x)
-                if m is not None:
+                if m is False:
+                    table[x] = 0
+                elif m is not None:
                     key = enc_msg(msg_view(m))
                     table[x] = ids.setdefault(key, len(ids) + 1)
     return table
@@ -124,7 +125,7 @@ def run_impl(case, outcome):
             qs.append(Query("buf session %s %s" % (head, pl), observed + " !" + bad[0][2], "corr"))
         # C11 oracle: bounded, genuine, nothing raised, no hang
         c11_calls = enc_list(lambda c: enc_list(str, c[0] + ([9997] if c[2] else [])) + " " + str(len(c[1])), calls)
-        qs.append(Query("spec buf11 %s %s %s" % (tstr, enc_list(str, sorted(set(table.values()))), c11_calls), "True", "oracle",
+        qs.append(Query("spec buf11 %s %s %s" % (tstr, enc_list(str, sorted(set(table.values()) - {0})), c11_calls), "True", "oracle",
                         "C11: retained <= threshold, only parser results delivered, no exception, no hang"))
         if case.get("segs") is not None:
             segs = []
@@ -134,8 +135,13 @@ def run_impl(case, outcome):
             deliveries = " | ".join(",".join(str(i) for i in d) for d, data, st in calls)
             if bad:
                 deliveries += " !" + bad[0][2]
-            qs.append(Query("spec buf02 %s %d %s %s %s" % (head, len(segs), " ".join(segs), enc_str(case["final"]), pl),
-                            (deliveries, "na"), "oracle", "C02: each message once, in order, at the call its last character arrives"))
+            if case.get("corrupt") is None:
+                qs.append(Query("spec buf02 %s %d %s %s %s" % (head, len(segs), " ".join(segs), enc_str(case["final"]), pl),
+                                (deliveries, "na"), "oracle", "C02: each message once, in order, at the call its last character arrives"))
+            else:
+                flat = ",".join(str(i) for d, data, st in calls for i in d) + (" !" + bad[0][2] if bad else "")
+                qs.append(Query("spec buf11c %s %s %d %s %s" % (head, enc_str(case["corrupt"]), len(segs), " ".join(segs), enc_str(case["final"])),
+                                (flat, "na"), "oracle", "C11: after a corrupt prefix every later valid message is delivered, in order, and nothing else"))
     return qs
 
 
@@ -346,9 +352,54 @@ def gen_c11(rng, tier):
         if n < 150:
             plist.append(list(stream))
         yield {"op": "buf", "threshold": rng.choice(thresholds), "segs": None, "final": "", "stream": stream, "partitions": plist}
-    # (3) long junk beyond every threshold, then a valid message: resynchronisation
+    # (1b) resynchronisation with an oracle: a message truncated at every position (corrupt prefix), then a valid
+    # stream that alone exceeds the threshold (theorem C11_resync; the Lean side checks its hypotheses per case)
+    for T in (64, 128, 2048):
+        picks = valid if thorough else rng.sample(valid, 6)
+        for text in picks:
+            body_start = text.index("<", 1)
+            for k in (range(body_start + 1, len(text) - 1) if thorough or T == 64 else rng.sample(range(body_start + 1, len(text) - 1), 4)):
+                corrupt = text[body_start:k]
+                seq = []
+                fitting = [m for m in msgs if len(m.to_string()) <= T]
+                if not fitting:
+                    continue
+                sp = rng.choice(SPELLINGS[:3])
+                while sum(len(g) + len(b) for g, b in encode_stream(seq, sp)[0]) <= T + 40:
+                    seq.append(rng.choice(fitting))
+                segs, final = encode_stream(seq, sp)
+                stream = corrupt + "".join(g + b for g, b in segs) + final
+                n = len(stream)
+                parts = [[stream], cuts_to_pieces(stream, rng.sample(range(1, n), min(4, n - 1))), cuts_to_pieces(stream, list(range(1024, n, 1024)))]
+                if n < 400:
+                    parts.append(list(stream))
+                yield {"op": "buf", "threshold": T, "segs": segs, "final": final, "corrupt": corrupt, "stream": stream, "partitions": parts}
+    # (3) long junk beyond every threshold, then valid messages: opener-free junk is a gap of the stream
+    # (theorem C11_long_junk_transparent, oracle buf02), junk with a known opener is a corrupt prefix (C11_resync)
+    junks = ["x" * 3000, "<foo " * 600, "<" * 2500, "<oneText>" + "y" * 2500, "<foo a='1'>text</foo>" * 40, "</getProperties>" * 30,
+             "<bar/>" * 5, "<!-- c -->" * 3, "&amp;<unknownTag " * 10]
     for T in thresholds:
-        for junk in ("x" * 3000, "<foo " * 600, "<setTextVector device='D' " + "a='b' " * 500, "<" * 2500, "<oneText>" + "y" * 2500):
-            stream = junk + valid[0] + compact[5]
-            yield {"op": "buf", "threshold": T, "segs": None, "final": "", "stream": stream,
-                   "partitions": [[stream], cuts_to_pieces(stream, [1024, 2048, 3072])]}
+        for junk in junks:
+            seq = [rng.choice(msgs) for _ in range(3)]
+            seq = [m for m in seq if T is None or len(m.to_string()) <= T] or [msgs[0]]
+            segs, final = encode_stream(seq, rng.choice(SPELLINGS[:3]))
+            segs[0][0] = junk + segs[0][0]
+            stream = "".join(g + b for g, b in segs) + final
+            n = len(stream)
+            j = len(junk)
+            parts = [[stream], cuts_to_pieces(stream, list(range(1024, n, 1024))),
+                     cuts_to_pieces(stream, sorted(set([j - 1, j, j + 1, j + 3, j + 7, j + 12, j + 25]) & set(range(1, n)))),
+                     [stream[:j]] + list(stream[j:])]
+            if thorough or len(junk) < 300:
+                parts.append(list(stream))
+            yield {"op": "buf", "threshold": T, "segs": segs, "final": final, "stream": stream, "partitions": parts}
+        junk = "<setTextVector device='D' " + "a='b' " * 500
+        seq = []
+        fitting = [m for m in msgs if T is not None and len(m.to_string()) <= T]
+        while fitting and sum(len(g) + len(b) for g, b in encode_stream(seq, SPELLINGS[0])[0]) <= T + 40:
+            seq.append(rng.choice(fitting))
+        if seq:
+            segs, final = encode_stream(seq, SPELLINGS[0])
+            stream = junk + "".join(g + b for g, b in segs) + final
+            yield {"op": "buf", "threshold": T, "segs": segs, "final": final, "corrupt": junk, "stream": stream,
+                   "partitions": [[stream], cuts_to_pieces(stream, list(range(1024, len(stream), 1024))), [stream[:len(junk)]] + list(stream[len(junk):])]}
